@@ -1,5 +1,8 @@
 //! vnet: sync-level monitors (C04 C05 C09 C11 C17, sync parts of C02 C03 C07 C08 C20).
 mod c04;
+mod c11;
+mod c17;
+mod http;
 mod loopback;
 mod sched;
 mod world;
@@ -15,6 +18,9 @@ fn main() {
     match args.check.as_str() {
         "c04" => rt.block_on(c04::run(&args, &mut rep, "C04")),
         "c05" => rt.block_on(c04::run(&args, &mut rep, "C05")),
+        "c11" => rt.block_on(c11::run(&args, &mut rep)),
+        "c17" => rt.block_on(c17::run(&args, &mut rep)),
+        "c15http" => rt.block_on(c11::run_c15_http(&args, &mut rep)),
         other => {
             eprintln!("vnet: unknown check {}", other);
             std::process::exit(2);
